@@ -65,14 +65,12 @@ struct — provided no supplied flattened member is non-string (`…_partial`: t
 excluded region is finding K6, witness `flattened_numeric_member_refused`). -/
 theorem doc_request_accepted_partial (ρ : Env) (flat : List String) (fs : Fields)
     (q : List (String × String))
-    (hflat : q.any (fun kv => flat.contains kv.1 &&
-      (match fs.lookup kv.1 with | some t => !t.stringly | none => false)) = false)
+    (hflat : flatBlocked flat fs q = false)
     (hreq : ∀ n s, (n, true, s) ∈ paramList fs → (lookupStr n q).isSome = true)
     (hval : ∀ n t d, (n, t, d) ∈ fs.toList → ∀ v, lookupStr n q = some v →
       ∃ j, readParam t v = some j ∧ (schemaOf t).valid ρ j = true ∧ formatOk t j = true) :
     ∃ r, extractParamsFlat flat fs q = .ok r := by
-  unfold extractParamsFlat
-  rw [hflat]
+  simp only [extractParamsFlat, hflat]
   exact doc_request_accepted ρ fs q hreq hval
 
 /-- **K6.**  `struct Q { own: u8, #[serde(flatten)] inner: { fx: u16 } }`: the
